@@ -80,6 +80,32 @@ def check(rep, tier, rng):
                             "sampled graphs over %d declarations, random graphs of 13-40 declarations with an opaque at the end of a chain >= 12 in source (adversarial) or shuffled order; "
                             "reference = graph search in tools/t3.py; distinct = distinct (generic set, size)" % (kmax, kmax + 1),
                     "samples": [{"text": c["text"][:300], "generics": generics_of(i)} for c, (i, m) in list(zip(cases, res))[:: max(1, len(cases) // 5)]][:5]})
+    # the parameter lists the emitters print: the impl headers and type declarations of the generated text must carry `<T>` / `<Bytes>`
+    # for exactly the names reachability gives (the index may be right and the *question* the emitters ask of it wrong)
+    import t1, re
+    sample = [c for c in cases if c["kind"] == "names"] + cases[:: max(1, len(cases) // 400)]
+    gens = t1.run_gen([c["text"] for c in sample])
+    nparam = 0
+    for c, (gi, gm) in zip(sample, gens):
+        want = t3.ast_of(c["items"])
+        if want is None or not gi.startswith("ok "):
+            continue
+        nparam += 1
+        reach = set(x for x in (generics_of(want) or "").split(",") if x)
+        text = bytes.fromhex(gi[3:]).decode("utf-8", "replace")
+        declared = set(re.findall(r"pub (?:struct|enum) ([A-Za-z_0-9]+)<T", text))
+        impls = set(re.findall(r"for ([A-Za-z_0-9]+)<Bytes>", text))
+        names = set(it["name"] for it in c["items"] if it["k"] in ("struct", "union", "typedef"))
+        # names of these corpora need no escaping, except the reserved-word catalogue (skipped: `_v`)
+        if any(it["name"] in ("ref", "match", "type", "use", "mod", "fn", "impl", "self", "Self", "loop", "move", "in", "as", "where", "dyn", "async") for it in c["items"] if "name" in it):
+            continue
+        # (a typedef whose target is its own alias prints no declaration, so the impl headers are what is compared)
+        if (impls & names) != (reach & names):
+            nviol += 1
+            if nviol <= 5:
+                rep.violation({"kind": "emitted-parameter-lists-differ-from-reachability", "text": c["text"], "expected_generics": ",".join(sorted(reach & names)),
+                               "impl_headers_with_Bytes": ",".join(sorted(impls & names)), "declarations_with_T": ",".join(sorted(declared & names))})
+    rep.cov["parameter_lists_checked"] = nparam
     if tie_breaks and nviol == 0:
         c, impl, model = tie_breaks[0]
         rep.violation({"kind": "tie-T3-broken", "tie": "T3 generics() vs Fx.GenericIndex.new", "first_difference": {"text": c["text"], "impl": impl, "model": model},
